@@ -61,6 +61,7 @@ type vProfile struct {
 	decorSoft   bool  // decorators may take a soft value-group as an extra parameter
 	twoSided    bool  // C16: a rejection in the container as drawn is compared with the rearranged one instead of being assumed away
 	visErr      bool  // call Visualize(VisualizeError(err)) after every failed Invoke
+	softOuter   bool  // soft group fields are not drawn inside nested parameter objects
 	as3         bool  // As lists may have three interfaces
 	regDShape   []int // if set and >= 0: the shape (see genFunc) of the i-th registration when it is a decorator is fixed
 }
@@ -121,6 +122,10 @@ func (h *vHist) genParam(tag string, allowGroup bool) *vParam {
 			p.group = h.groupName(tag)
 			if h.p.soft {
 				p.soft = verifNdBool(tag + ".soft")
+				if h.p.softOuter && p.soft {
+					// the guarantee of C11 is per parameter object: keep soft fields in the outer object
+					verifAssume(p.form == 1)
+				}
 			}
 			return p
 		}
